@@ -90,7 +90,18 @@ def _mean_finalize(s, c):
         return s / c
 
 
+_USER_OBJECTS = {}
+
+
 def user_agg(name):
+    """ONE object per name for the whole process: a user keeps and reuses an Aggregation (eager call, then chunked calls,
+    float data, then other settings); the law must hold on every use."""
+    if name not in _USER_OBJECTS:
+        _USER_OBJECTS[name] = _make_user_agg(name)
+    return _USER_OBJECTS[name]
+
+
+def _make_user_agg(name):
     import flox
 
     if name == "u_range":
@@ -137,6 +148,7 @@ def distributions(m, k):
 
 
 VARIANTS = [
+    dict(name="eager", method=None, reindex=None, labels_dask=False, expected=True, eager=True),
     dict(name="simple/reindex-at-block", method="map-reduce", reindex=True, labels_dask=False, expected=True),
     dict(name="simple/reindex-at-combine", method="map-reduce", reindex=False, labels_dask=False, expected=True),
     dict(name="grouped/unknown-labels", method="map-reduce", reindex=None, labels_dask=True, expected=False),
@@ -178,7 +190,12 @@ def check_point(res, func, dtype, M, dist, variant, split_every, setting):
         kw["min_count"] = setting["min_count"]
     if func in ("var", "nanvar", "std", "nanstd"):
         kw["finalize_kwargs"] = dict(ddof=1)
-    arr = da.from_array(V, chunks=((B,), tuple(chunks)))
+    if variant.get("eager"):
+        arr = V
+        kw.pop("method", None)
+        kw.pop("reindex", None)
+    else:
+        arr = da.from_array(V, chunks=((B,), tuple(chunks)))
     by = da.from_array(labels, chunks=(tuple(chunks),)) if variant["labels_dask"] else labels
     with dask.config.set(**({"split_every": split_every} if split_every else {})):
         out = e1.call_reduce(arr, by, **kw)
@@ -251,7 +268,7 @@ def run_shard(shard):
         for k in (2, 3):
             for dist in distributions(m, k):
                 for variant in VARIANTS:
-                    for se in ((None, 2) if k == 3 else (None,)):
+                    for se in ((None, 2) if (k == 3 and not variant.get("eager")) else (None,)):
                         for setting in SETTINGS:
                             if dtype == "bool" and setting["fill"] is not None and setting["fill"] != setting["fill"]:
                                 continue  # a NaN fill on boolean results is a dtype question (C11)
